@@ -205,6 +205,12 @@ func aminoDrive(args []string) error {
 	for i := 0; i < nrand/2; i++ {
 		do(aminoReq{Op: "frames", Seq: randOver(r, []byte(lettersDNA), maxFrame+1+r.Intn(long))})
 	}
+	// short sequences with foreign bytes: a byte that belongs to no codon of any frame must not matter
+	for ln := 1; ln <= 5; ln++ {
+		for j := 0; j < 24; j++ {
+			do(aminoReq{Op: "frames", Seq: randOver(r, []byte("ACGTacgtNn-\x00\xff"), ln)})
+		}
+	}
 	for b := 0; b < 256; b++ {
 		do(aminoReq{Op: "aminoname", B: b})
 	}
